@@ -21,7 +21,8 @@
     CONTAINERS are abstracted to the finite-map interface they share; their agreement is checked by the
     correspondence (results and final cache contents of both containers against the model), not proved.
     Run time is not part of the statement: the fuel bound [2 * mu e] is exponential in the bit widths. *)
-From Coq Require Import List.
+From Coq Require Import List NArith Sorted.
+From Patronus Require Import ExprMeta ExprMetaSpec ExprMetaProofs SimplifyCacheRefs SimplifyCacheRefsProofs.
 From Patronus Require Import Simplify SimplifyFix SimplifyCache SimplifyCacheProofs SimplifyBuilders
      SimplifyTermMeasure SimplifyTermRules3 SimplifyTerm SimplifyTermNoPanic1 SimplifyTermNoPanic SimplifyCacheComplete.
 Import ListNotations.
@@ -143,3 +144,157 @@ Example C13_example :
   let r := BVNot (BVSymbol "x" 1) 1 in
   simp_default e = SOk r /\ simp_default r = SOk r.
 Proof. vm_compute. split; reflexivity. Qed.
+
+(** ** the cache containers of meta.rs (Model/ExprMeta.v) *)
+
+(** [DenseExprMetaData<T>] (vector, [resize] on [index_mut]) implements the total map [ExprRef -> T] ([dense_abs], the
+    function [index] computes): empty = everywhere the default; [m[k] = v] is the point update; a read through
+    [index_mut] returns what [index] returns and leaves the map unchanged; [iter] enumerates the stored slots
+    [0 .. len-1] in index order with the values [index] returns; [into_vec] is that vector, of length
+    [max len (k+1)] after a store at [k]; [non_default_value_keys] lists, in increasing order, exactly the keys
+    whose value is not the default. *)
+Theorem C13_dense_map_refines : forall (T : Type) (dflt : T),
+  fm_eq (dense_abs dflt dense_empty) (fm_empty dflt) /\
+  (forall (d : dense T) k v, fm_eq (dense_abs dflt (dense_set dflt d k v)) (fm_set (dense_abs dflt d) k v)) /\
+  (forall (d : dense T) k, snd (dense_index_mut dflt d k) = dense_abs dflt d k /\
+               fm_eq (dense_abs dflt (fst (dense_index_mut dflt d k))) (dense_abs dflt d)) /\
+  (forall (d : dense T), map fst (dense_iter d) = map N.of_nat (seq 0 (length d)) /\ map snd (dense_iter d) = dense_into_vec d) /\
+  (forall (d : dense T) k v, In (k, v) (dense_iter d) <-> (k < len_N d /\ v = dense_abs dflt d k)%N) /\
+  (forall (d : dense T) k, nth_N (dense_into_vec d) k dflt = dense_abs dflt d k) /\
+  (forall (d : dense T) k v, len_N (dense_into_vec (dense_set dflt d k v)) = N.max (len_N (dense_into_vec d)) (k + 1)) /\
+  (forall teqb, eqb_ok teqb -> forall (d : dense T),
+      StronglySorted N.lt (dense_non_default_value_keys teqb dflt d) /\
+      forall k, In k (dense_non_default_value_keys teqb dflt d) <-> dense_abs dflt d k <> dflt).
+Proof. exact dense_map_refines. Qed.
+Print Assumptions C13_dense_map_refines.
+
+(** [SparseExprMap<T>] (hash map, one entry per key: [sparse_wf]) implements the same map: as above, and a read
+    through [index_mut] ([entry(e).or_default()]) leaves the MAP unchanged although it stores an entry for the key;
+    [iter] yields each stored key once with the value [index] returns; [non_default_value_keys] lists, without
+    repetition, exactly the keys whose value is not the default. *)
+Theorem C13_sparse_map_refines : forall (T : Type) (dflt : T),
+  (sparse_wf (@sparse_empty T) /\ fm_eq (sparse_abs dflt sparse_empty) (fm_empty dflt)) /\
+  (forall (s : sparse T) k v, sparse_wf s ->
+      sparse_wf (sparse_set dflt s k v) /\ fm_eq (sparse_abs dflt (sparse_set dflt s k v)) (fm_set (sparse_abs dflt s) k v)) /\
+  (forall (s : sparse T) k, sparse_wf s ->
+      sparse_wf (fst (sparse_index_mut dflt s k)) /\
+      snd (sparse_index_mut dflt s k) = sparse_abs dflt s k /\
+      fm_eq (sparse_abs dflt (fst (sparse_index_mut dflt s k))) (sparse_abs dflt s) /\
+      In k (map fst (sparse_iter (fst (sparse_index_mut dflt s k))))) /\
+  (forall (s : sparse T), sparse_wf s -> NoDup (map fst (sparse_iter s)) /\
+      forall k v, In (k, v) (sparse_iter s) -> v = sparse_abs dflt s k) /\
+  (forall teqb, eqb_ok teqb -> forall (s : sparse T), sparse_wf s ->
+      NoDup (sparse_non_default_value_keys teqb dflt s) /\
+      forall k, In k (sparse_non_default_value_keys teqb dflt s) <-> sparse_abs dflt s k <> dflt).
+Proof. exact sparse_map_refines. Qed.
+Print Assumptions C13_sparse_map_refines.
+
+(** [DenseExprSet] (64-bit words, shifts and masks) implements a set of [ExprRef]s, including the returned booleans *)
+Theorem C13_dense_set_refines :
+  fs_eq (dense_bits_abs dense_bits_empty) fs_empty /\
+  (forall s k, snd (dense_bits_insert s k) = negb (dense_bits_abs s k) /\
+               fs_eq (dense_bits_abs (fst (dense_bits_insert s k))) (fs_add (dense_bits_abs s) k)) /\
+  (forall s k, snd (dense_bits_remove s k) = dense_bits_abs s k /\
+               fs_eq (dense_bits_abs (fst (dense_bits_remove s k))) (fs_del (dense_bits_abs s) k)).
+Proof. exact dense_set_refines. Qed.
+Print Assumptions C13_dense_set_refines.
+
+Theorem C13_sparse_set_refines :
+  (NoDup sparse_bits_empty /\ fs_eq (sparse_bits_abs sparse_bits_empty) fs_empty) /\
+  (forall s k, NoDup s ->
+      NoDup (fst (sparse_bits_insert s k)) /\
+      snd (sparse_bits_insert s k) = negb (sparse_bits_abs s k) /\
+      fs_eq (sparse_bits_abs (fst (sparse_bits_insert s k))) (fs_add (sparse_bits_abs s) k)) /\
+  (forall s k, NoDup s ->
+      NoDup (fst (sparse_bits_remove s k)) /\
+      snd (sparse_bits_remove s k) = sparse_bits_abs s k /\
+      fs_eq (sparse_bits_abs (fst (sparse_bits_remove s k))) (fs_del (sparse_bits_abs s) k)).
+Proof. exact sparse_set_refines. Qed.
+Print Assumptions C13_sparse_set_refines.
+
+(** [get_fixed_point] (fast path, chasing loop, pointer-update loop) run on a dense and on a sparse container that
+    hold the same map: the same answer (the same [Some(v)], [None], or neither loop finished within the fuel) and
+    the containers hold the same map afterwards; more fuel never changes an answer. *)
+Theorem C13_get_fixed_point_container_irrelevant : forall fuel (d : dense (option N)) (s : sparse (option N)) key,
+  fm_eq (dense_abs None d) (sparse_abs None s) ->
+  match ExprMeta.get_fixed_point dense_ops fuel d key, ExprMeta.get_fixed_point sparse_ops fuel s key with
+  | GfpSome d' v1, GfpSome s' v2 => v1 = v2 /\ fm_eq (dense_abs None d') (sparse_abs None s')
+  | GfpNone d', GfpNone s' => fm_eq (dense_abs None d') (sparse_abs None s')
+  | GfpFuel, GfpFuel => True
+  | _, _ => False
+  end.
+Proof. exact get_fixed_point_dense_sparse. Qed.
+Print Assumptions C13_get_fixed_point_container_irrelevant.
+
+Theorem C13_get_fixed_point_fuel_monotone : forall (M : Type) (o : map_ops M) f m key,
+  ExprMeta.get_fixed_point o f m key <> GfpFuel -> forall f', (f <= f')%nat -> ExprMeta.get_fixed_point o f' m key = ExprMeta.get_fixed_point o f m key.
+Proof. exact get_fixed_point_mono. Qed.
+Print Assumptions C13_get_fixed_point_fuel_monotone.
+
+(** non-vacuity: the chain of the unit test of meta.rs (0 -> 1 -> 2 -> 2) in both containers, a read through
+    [index_mut] that grows both containers, and a set history around the word boundary *)
+Example C13_example_containers :
+  let d := dense_set None (dense_set None (dense_set None dense_empty 0 (Some 1)) 1 (Some 2)) 2 (Some 2) in
+  let s := sparse_set None (sparse_set None (sparse_set None sparse_empty 2 (Some 2)) 1 (Some 2)) 0 (Some 1) in
+  dense_get_fixed_point d 0 = GfpSome [Some 2; Some 2; Some 2] 2 /\
+  sparse_get_fixed_point s 0 = GfpSome [(2, Some 2); (1, Some 2); (0, Some 2)] 2 /\
+  dense_index_mut None d 4 = ([Some 1; Some 2; Some 2; None; None], None) /\
+  sparse_index_mut None s 4 = ([(2, Some 2); (1, Some 2); (0, Some 1); (4, None)], None) /\
+  sparse_non_default_value_keys option_N_eqb None (fst (sparse_index_mut None s 4)) = [2; 1; 0] /\
+  dense_get_fixed_point (dense_set None d 2 (Some 0)) 1 = GfpFuel /\
+  (let '(b1, r1) := dense_bits_insert dense_bits_empty 64 in
+   let '(b2, r2) := dense_bits_insert b1 63 in
+   let '(b3, r3) := dense_bits_remove b2 64 in
+   (b2, r1, r2, r3, dense_bits_contains b3 63, dense_bits_contains b3 64))
+  = ([9223372036854775808; 1], true, true, true, true, false).
+Proof. vm_compute. repeat split; reflexivity. Qed.
+
+(** ** the memoising driver over the two cache containers (Model/SimplifyCacheRefs.v)
+
+    [simplify_batch_dense] / [simplify_batch_sparse]: one [Simplifier] instance with a [DenseExprMetaData] /
+    [SparseExprMap] cache (keys and values are [ExprRef] indices of an interning table, [get_fixed_point] is the one
+    of meta.rs) fed the history [es].  For EVERY history and every fuel: the same list of results (the same
+    expression, the same panic, or out of fuel in both), the same interning table, and the two caches hold the
+    same map - hence the same [key -> value] entries. *)
+Theorem C13_container_irrelevant : forall (fuel : nat) (es : list expr),
+  match simplify_batch_dense fuel es, simplify_batch_sparse fuel es with
+  | (cd, d, rd), (cs, s, rs) =>
+      rd = rs /\ cd = cs /\ fm_eq (dense_abs None d) (sparse_abs None s) /\
+      forall e, cache_entry dense_ops cd d e = cache_entry sparse_ops cs s e
+  end.
+Proof. exact container_irrelevant. Qed.
+Print Assumptions C13_container_irrelevant.
+
+(** the same from any interning table and any two containers holding the same map (instances with a past) *)
+Theorem C13_container_irrelevant_from :
+  forall (fuel : nat) (c : ctx) (d : dense (option N)) (s : sparse (option N)) (es : list expr),
+  fm_eq (dense_abs None d) (sparse_abs None s) ->
+  match simplify_batch_r dense_ops fuel c d es, simplify_batch_r sparse_ops fuel c s es with
+  | (cd, d', rd), (cs, s', rs) => rd = rs /\ cd = cs /\ fm_eq (dense_abs None d') (sparse_abs None s')
+  end.
+Proof. exact container_irrelevant_from. Qed.
+Print Assumptions C13_container_irrelevant_from.
+
+(** non-vacuity: the history of [C13_example_history] through both containers: results, interning table, the raw
+    dense vector and the raw sparse entries (different representations of the same map) *)
+Example C13_example_container_history :
+  let x := BVSymbol "x" 4 in
+  let a := BVNot (BVNot x 4) 4 in
+  let b := BVAnd a a 4 in
+  simplify_batch_dense 200 [a; b; a] =
+    ([a; BVNot x 4; x; b], [Some 2; Some 1; Some 2; Some 2]%N, [SOk x; SOk x; SOk x]) /\
+  simplify_batch_sparse 200 [a; b; a] =
+    ([a; BVNot x 4; x; b], [(2, Some 2); (1, Some 1); (0, Some 2); (3, Some 2)]%N, [SOk x; SOk x; SOk x]) /\
+  snd (simplify_batch 200 [] [a; b; a]) = snd (simplify_batch_dense 200 [a; b; a]).
+Proof. vm_compute. repeat split; reflexivity. Qed.
+
+(** both instances compute what the same driver computes over the specification-level map [ExprRef -> Option<ExprRef>]
+    ([fun_ops]: a read is an application, a store the point update) *)
+Theorem C13_containers_refine_map : forall (fuel : nat) (es : list expr),
+  match simplify_batch_r fun_ops fuel [] (fm_empty None) es with
+  | (c, m, rs) =>
+      (match simplify_batch_dense fuel es with (cd, d, rd) => rd = rs /\ cd = c /\ fm_eq (dense_abs None d) m end) /\
+      (match simplify_batch_sparse fuel es with (cs, s, rs') => rs' = rs /\ cs = c /\ fm_eq (sparse_abs None s) m end)
+  end.
+Proof. exact containers_refine_map. Qed.
+Print Assumptions C13_containers_refine_map.
